@@ -26,7 +26,9 @@ type c10TagVars struct {
 	dispatch map[types.Object]string // var -> tag name
 	order    []types.Object          // key vars in source order
 	pseudo   map[ast.Expr]string     // switch tag `X.Tag.Get("t")` -> tag name
-	keyFunc  bool                    // the function returns the key of a struct field
+	places   map[string]*types.Var   // "p.Key" of a local struct variable p -> stand-in variable
+	byBase   map[types.Object][]types.Object
+	keyFunc  bool // the function returns the key of a struct field
 }
 
 func c10TagGet(info *types.Info, e ast.Expr) (string, bool) {
@@ -54,9 +56,43 @@ func c10NameFn(info *types.Info, e ast.Expr) (string, bool) {
 	return kit.QualName(fn), true
 }
 
+// obj names what an assignable expression denotes: the variable of an
+// identifier, or a stand-in variable for a field path `p.Key` on a local
+// struct value p (one per variable and path, so that p.Key of different
+// variables are different places).  Other selectors denote nothing here.
+func (tv *c10TagVars) obj(e ast.Expr) types.Object {
+	info := tv.f.Info()
+	switch x := ast.Unparen(e).(type) {
+	case *ast.Ident:
+		return kit.ObjOf(info, x)
+	case *ast.SelectorExpr:
+		sel, ok := info.Selections[x]
+		if !ok || sel.Kind() != types.FieldVal || sel.Indirect() {
+			return nil
+		}
+		id, ok := ast.Unparen(x.X).(*ast.Ident)
+		if !ok {
+			return nil
+		}
+		base, ok := kit.ObjOf(info, id).(*types.Var)
+		if !ok || base.IsField() || base.Pkg() == nil || base.Parent() == base.Pkg().Scope() {
+			return nil
+		}
+		key := kit.VarID(base) + "." + x.Sel.Name
+		if v, ok := tv.places[key]; ok {
+			return v
+		}
+		v := types.NewVar(base.Pos(), base.Pkg(), base.Name()+"."+x.Sel.Name, sel.Type())
+		tv.places[key] = v
+		tv.byBase[base] = append(tv.byBase[base], v)
+		return v
+	}
+	return nil
+}
+
 func c10CollectTagVars(f *kit.Func) *c10TagVars {
 	info := f.Info()
-	tv := &c10TagVars{f: f, key: map[types.Object]bool{}, dispatch: map[types.Object]string{}}
+	tv := &c10TagVars{f: f, key: map[types.Object]bool{}, dispatch: map[types.Object]string{}, places: map[string]*types.Var{}, byBase: map[types.Object][]types.Object{}}
 	nAssign := map[types.Object]int{}
 	tagOf := map[types.Object]string{}
 	var seen []types.Object
@@ -66,7 +102,7 @@ func c10CollectTagVars(f *kit.Func) *c10TagVars {
 			return true
 		}
 		for i, l := range as.Lhs {
-			o := kit.ObjOf(info, l)
+			o := tv.obj(l)
 			if o == nil {
 				continue
 			}
@@ -133,6 +169,9 @@ func c10CollectTagVars(f *kit.Func) *c10TagVars {
 		}
 	}
 	for _, o := range seen {
+		if strings.HasSuffix(o.Name(), ".Key") {
+			flowsToKey[o] = true
+		}
 		if tv.keyFunc {
 			tv.dispatch[o] = tagOf[o] // tracked for emptiness; judged at the returns
 			continue
@@ -157,7 +196,7 @@ type c10TagResult struct {
 
 // emptyTest recognises v == "" / v != "" / len(v) == 0 / len(v) > 0 …;
 // whenTrueEmpty tells whether the leaf being true means v is empty.
-func c10EmptyTest(info *types.Info, e ast.Expr) (types.Object, bool, bool) {
+func c10EmptyTest(info *types.Info, objOf func(ast.Expr) types.Object, e ast.Expr) (types.Object, bool, bool) {
 	be, ok := ast.Unparen(e).(*ast.BinaryExpr)
 	if !ok {
 		return nil, false, false
@@ -167,7 +206,7 @@ func c10EmptyTest(info *types.Info, e ast.Expr) (types.Object, bool, bool) {
 		a, b = b, a
 	}
 	if s, ok := kit.ConstString(info, b); ok && s == "" {
-		if o := kit.ObjOf(info, a); o != nil && (op == token.EQL || op == token.NEQ) {
+		if o := objOf(a); o != nil && (op == token.EQL || op == token.NEQ) {
 			return o, op == token.EQL, true
 		}
 		return nil, false, false
@@ -180,7 +219,7 @@ func c10EmptyTest(info *types.Info, e ast.Expr) (types.Object, bool, bool) {
 	if bi, ok := kit.Callee(info, call).(*types.Builtin); !ok || bi.Name() != "len" {
 		return nil, false, false
 	}
-	o := kit.ObjOf(info, call.Args[0])
+	o := objOf(call.Args[0])
 	v, isC := kit.ConstInt(info, b)
 	if o == nil || !isC {
 		return nil, false, false
@@ -204,16 +243,34 @@ func c10RunTags(c *kit.Ctx, tv *c10TagVars) *c10TagResult {
 	res := &c10TagResult{uses: map[types.Object]map[string]bool{}, seqs: map[string]bool{}, sub: map[string]map[string]bool{}, rets: map[string]bool{}}
 	tracked := func(o types.Object) bool { return o != nil && (tv.key[o] || tv.dispatch[o] != "") }
 	use := func(n ast.Node, s kit.S, skip ast.Node) {
+		rec := func(o types.Object) {
+			if res.uses[o] == nil {
+				res.uses[o] = map[string]bool{}
+			}
+			res.uses[o][s.Get("ch:"+kit.VarID(o))] = true
+		}
 		ast.Inspect(n, func(x ast.Node) bool {
 			if x == skip {
 				return false
 			}
-			if id, ok := x.(*ast.Ident); ok {
-				if o := info.Uses[id]; o != nil && tv.key[o] {
-					if res.uses[o] == nil {
-						res.uses[o] = map[string]bool{}
+			switch y := x.(type) {
+			case *ast.SelectorExpr:
+				if o := tv.obj(y); o != nil {
+					if tv.key[o] {
+						rec(o)
 					}
-					res.uses[o][s.Get("ch:"+kit.VarID(o))] = true
+					return false // p.Other is not a use of p.Key
+				}
+			case *ast.Ident:
+				if o := info.Uses[y]; o != nil {
+					if tv.key[o] {
+						rec(o)
+					}
+					for _, pl := range tv.byBase[o] { // the whole struct is used
+						if tv.key[pl] {
+							rec(pl)
+						}
+					}
 				}
 			}
 			return true
@@ -279,7 +336,7 @@ func c10RunTags(c *kit.Ctx, tv *c10TagVars) *c10TagResult {
 		var chain []string
 		var last string
 		target := ""
-		if o := kit.ObjOf(info, e); o != nil && tv.dispatch[o] != "" {
+		if o := tv.obj(e); o != nil && tv.dispatch[o] != "" {
 			target = kit.VarID(o)
 		}
 		for _, ent := range strings.Split(s.Get("ks"), ";") {
@@ -309,7 +366,12 @@ func c10RunTags(c *kit.Ctx, tv *c10TagVars) *c10TagResult {
 	assign := func(s kit.S, as *ast.AssignStmt) kit.S {
 		if len(as.Lhs) != len(as.Rhs) {
 			for _, l := range as.Lhs {
-				if o := kit.ObjOf(info, l); tracked(o) {
+				if o := tv.obj(l); o != nil {
+					for _, pl := range tv.byBase[o] {
+						s = s.Del("ch:" + kit.VarID(pl)).Del("em:" + kit.VarID(pl))
+					}
+				}
+				if o := tv.obj(l); tracked(o) {
 					id := kit.VarID(o)
 					s = s.Del("em:"+id).Set("ch:"+id, s.Get("ch:"+id)+"|other")
 				}
@@ -317,7 +379,12 @@ func c10RunTags(c *kit.Ctx, tv *c10TagVars) *c10TagResult {
 			return s
 		}
 		for i, l := range as.Lhs {
-			o := kit.ObjOf(info, l)
+			o := tv.obj(l)
+			if o != nil {
+				for _, pl := range tv.byBase[o] { // p := … : p.Key starts afresh
+					s = s.Del("ch:" + kit.VarID(pl)).Del("em:" + kit.VarID(pl))
+				}
+			}
 			if !tracked(o) {
 				continue
 			}
@@ -337,6 +404,8 @@ func c10RunTags(c *kit.Ctx, tv *c10TagVars) *c10TagResult {
 				switch {
 				case as.Tok == token.DEFINE || cur == "":
 					cur = elem
+				case strings.Count(cur, "|") > 6:
+					// long enough to be judged wrong; keeps loops finite
 				case s.Get("em:"+id) == "T":
 					cur += "|" + elem
 				default:
@@ -353,7 +422,38 @@ func c10RunTags(c *kit.Ctx, tv *c10TagVars) *c10TagResult {
 		}
 		return s
 	}
+	type sv struct {
+		s kit.S
+		v bool
+	}
+	var eval func(e ast.Expr, s kit.S) []sv
+	boolLocal := func(e ast.Expr) types.Object {
+		id, ok := ast.Unparen(e).(*ast.Ident)
+		if !ok {
+			return nil
+		}
+		v, ok := kit.ObjOf(info, id).(*types.Var)
+		if !ok || v.IsField() || v.Pkg() == nil || v.Parent() == v.Pkg().Scope() {
+			return nil
+		}
+		if bt, ok := v.Type().Underlying().(*types.Basic); !ok || bt.Info()&types.IsBoolean == 0 {
+			return nil
+		}
+		return v
+	}
 	node := func(n ast.Node, s kit.S) []kit.S {
+		// b := <condition>  is  if <condition> { b = true } else { b = false }
+		if as, ok := n.(*ast.AssignStmt); ok && len(as.Lhs) == 1 && len(as.Rhs) == 1 && (as.Tok == token.ASSIGN || as.Tok == token.DEFINE) {
+			if b := boolLocal(as.Lhs[0]); b != nil {
+				if _, isConst := kit.ConstBool(info, as.Rhs[0]); !isConst {
+					var out []kit.S
+					for _, r := range eval(as.Rhs[0], s) {
+						out = append(out, r.s.Set("bv:"+kit.VarID(b), map[bool]string{true: "T", false: "F"}[r.v]))
+					}
+					return out
+				}
+			}
+		}
 		if e, ok := n.(ast.Expr); ok {
 			if _, isTag := tv.pseudo[ast.Unparen(e)]; isTag {
 				return []kit.S{newRound(s, pseudoID(e))}
@@ -369,8 +469,8 @@ func c10RunTags(c *kit.Ctx, tv *c10TagVars) *c10TagResult {
 				use(r, s, nil)
 			}
 			for _, l := range x.Lhs {
-				if _, plain := ast.Unparen(l).(*ast.Ident); !plain {
-					use(l, s, nil) // m[key] = …, p.Key = …
+				if _, plain := ast.Unparen(l).(*ast.Ident); !plain && !tracked(tv.obj(l)) {
+					use(l, s, nil) // m[key] = …, q.Key = key; a tracked place being assigned is not used
 				}
 			}
 			s = assign(s, x)
@@ -379,13 +479,16 @@ func c10RunTags(c *kit.Ctx, tv *c10TagVars) *c10TagResult {
 		}
 		return []kit.S{s}
 	}
-	type sv struct {
-		s kit.S
-		v bool
-	}
-	var eval func(e ast.Expr, s kit.S) []sv
 	eval = func(e ast.Expr, s kit.S) []sv {
 		e = ast.Unparen(e)
+		if b := boolLocal(e); b != nil {
+			switch s.Get("bv:" + kit.VarID(b)) {
+			case "T":
+				return []sv{{s, true}}
+			case "F":
+				return []sv{{s, false}}
+			}
+		}
 		switch x := e.(type) {
 		case *ast.UnaryExpr:
 			if x.Op == token.NOT {
@@ -410,7 +513,7 @@ func c10RunTags(c *kit.Ctx, tv *c10TagVars) *c10TagResult {
 			// sub-key comparison of a dispatch variable
 			if x.Op == token.EQL || x.Op == token.NEQ {
 				for _, p := range [][2]ast.Expr{{x.X, x.Y}, {x.Y, x.X}} {
-					if o := kit.ObjOf(info, p[0]); o != nil && tv.dispatch[o] != "" {
+					if o := tv.obj(p[0]); o != nil && tv.dispatch[o] != "" {
 						if cs, ok := kit.ConstString(info, p[1]); ok && cs != "" {
 							t := tv.dispatch[o]
 							if res.sub[t] == nil {
@@ -422,7 +525,7 @@ func c10RunTags(c *kit.Ctx, tv *c10TagVars) *c10TagResult {
 				}
 			}
 		}
-		if o, whenTrueEmpty, ok := c10EmptyTest(info, e); ok && tracked(o) {
+		if o, whenTrueEmpty, ok := c10EmptyTest(info, tv.obj, e); ok && tracked(o) {
 			id := kit.VarID(o)
 			s = tested(s, o)
 			var out []sv
@@ -451,7 +554,7 @@ func c10RunTags(c *kit.Ctx, tv *c10TagVars) *c10TagResult {
 	other := func(br kit.Branch, s kit.S) (t, fl []kit.S) {
 		if br.Kind == kit.BrCase && br.Tag != nil {
 			id, tag := "", ""
-			if o := kit.ObjOf(info, br.Tag); tracked(o) {
+			if o := tv.obj(br.Tag); tracked(o) {
 				id, tag = kit.VarID(o), tv.dispatch[o]
 			} else if t, ok := tv.pseudo[ast.Unparen(br.Tag)]; ok {
 				id, tag = pseudoID(br.Tag), t
